@@ -571,6 +571,80 @@ def run_heap_not_copied(chk, F):
            ': the copied fibonacci_heap has nodes whose mark is uninitialised', key='E1d|Lazy_toplex_map|heap-rebuilt')
 
 
+def run_shared_immutable(chk, F):
+    """E1-shared-immutable: the simplices of a toplex map are held by std::shared_ptr and the copy of a map shares them
+    with its source (the copy constructors copy the pointers): a stored simplex is never modified through its
+    pointer - no call of a mutating member of the set (`erase, insert, emplace, clear, swap, merge, extract`) and no
+    assignment whose receiver / target is reached through `operator->` / `operator*` of a shared_ptr. An edited simplex
+    is a fresh copy (`Simplex sigma(*sptr)`)."""
+    MUT = ('erase', 'insert', 'emplace', 'emplace_hint', 'clear', 'swap', 'merge', 'extract')
+
+    def through_shared(e):
+        e = ir.skipcasts(e)
+        while e is not None and e.get('k') in ('ParenExpr', 'ImplicitCastExpr'):
+            e = ir.skipcasts(e['c'][0])
+        return e is not None and e.get('k') == 'CXXOperatorCallExpr' and e.get('op') in ('->', '*') and \
+            'shared_ptr' in ((e.get('callee') or '') + (e.get('t') or ''))
+    n = 0
+    for f in F.functions:
+        if f.get('clsname') not in ('Toplex_map', 'Lazy_toplex_map') or f['inst'] not in (0, 2) or \
+                f.get('body') is None:
+            continue
+        derefs = [x for x in ir.walk(f['body']) if through_shared(x)]
+        if not derefs:
+            continue
+        n += len(derefs)
+        bad = None
+        for x in ir.walk(f['body']):
+            if ir.is_call(x) and ir.call_name(x) in MUT and ir.call_receiver(x) is not None and \
+                    through_shared(ir.call_receiver(x)):
+                bad = x
+            t = ir.write_target(x)
+            if t is not None and through_shared(t):
+                bad = x
+        chk.ob('E1-shared-immutable', '%s::%s reads the stored simplices through their pointers and never modifies '
+               'them (%d dereferences)' % (f['clsname'], f['name'], len(derefs)), '%s:%d' % (rel(f['file']), f['line']),
+               bad is None, '' if bad is None else 'line %s: `%s` changes a simplex in place: the copy of a map shares '
+               'its simplices with the source (shared_ptr), the other map loses the same vertices' % (
+                   bad.get('l'), ir.show(bad)[:60]), key='E1|%s::%s|shared-immutable' % (f['clsname'], f['name']))
+    chk.expect_count('E1-shared-immutable', 'dereferences of stored simplices', n, 10)
+
+
+def run_independent_order(chk, F):
+    """E9-independent-order: `insert_independent_simplex` stores its argument without looking for stored faces of it
+    ("must not contain one of the current toplices"). Where a function feeds it the simplices of a table indexed by
+    size (`table.at(d)`), after the test `!membership(s)`, the sizes are visited in decreasing order: a simplex met
+    later is then either a face of a stored one (filtered by the membership test) or independent. In increasing order
+    nothing is filtered and a vertex stored next to its cofaces hides them from `maximal_cofaces`."""
+    n = 0
+    for f in F.functions:
+        if f.get('clsname') not in ('Toplex_map', 'Lazy_toplex_map') or f['inst'] not in (0, 2) or \
+                f.get('body') is None:
+            continue
+        for lp in ir.walk(f['body']):
+            if lp.get('k') != 'ForStmt' or not ir.contains(lp.get('body'), lambda y: ir.is_call(y) and ir.call_name(y) ==
+                                                          'insert_independent_simplex'):
+                continue
+            init = lp.get('init')
+            var = init['decls'][0].get('n') if init is not None and init.get('k') == 'DeclStmt' and init.get('decls') \
+                else None
+            if var is None or not ir.contains(lp.get('body'), lambda y: ir.is_call(y) and ir.call_name(y) in
+                                              ('at', 'operator[]') and var in ir.show(y)):
+                continue
+            n += 1
+            inc = ir.show(lp.get('inc')).replace(' ', '') if lp.get('inc') is not None else ''
+            down = inc in (var + '--', '--' + var, '(%s--)' % var, '(--%s)' % var) or ('-=' in inc)
+            tested = ir.contains(lp.get('body'), lambda y: y.get('k') == 'IfStmt' and 'membership(' in
+                                 ir.show(y.get('cond')) and ir.show(y.get('cond')).replace(' ', '').lstrip('(').startswith('!'))
+            ok = down and tested
+            chk.ob('E9-independent-order', '%s::%s feeds insert_independent_simplex by decreasing size, after a '
+                   'membership test' % (f['clsname'], f['name']), '%s:%s' % (rel(f['file']), lp.get('l')), ok,
+                   '' if ok else ('the loop on `%s` goes upwards (`%s`): faces are stored before their cofaces, nothing '
+                                  'is filtered' % (var, inc) if not down else 'no `!membership(s)` test before the '
+                                  'insertion'), key='E9|%s::%s|independent-order' % (f['clsname'], f['name']))
+    chk.expect_count('E9-independent-order', 'size-indexed rebuild loops', n, 1)
+
+
 def run(tier, replay=None):
     chk = Check('C16', tier,
                 'Static decision of one information-flow clause of the toplex maps: in every loop over maximal '
@@ -636,6 +710,8 @@ def run(tier, replay=None):
     run_lower_bounds(chk, F)
     run_vertex_lookups(chk, F)
     run_heap_not_copied(chk, F)
+    run_shared_immutable(chk, F)
+    run_independent_order(chk, F)
     chk.count('erase-and-reinsert loops', n_loops)
     chk.expect_count('E10-provenance', 'erase-and-reinsert loops', n_loops, 6)
     chk.assumptions += ['clang 14 parser', 'dependence is syntactic def-use over the loop body (sound over-approximation '
